@@ -2,11 +2,14 @@ package govc
 
 import (
 	"fmt"
+	"go/types"
 	"os"
 	"sort"
 	"strings"
 	"sync"
 	"time"
+
+	"golang.org/x/tools/go/ssa"
 
 	"verif/internal/smt"
 )
@@ -86,6 +89,9 @@ func specProps(s *FuncSpec) map[string]bool {
 	for _, p := range s.SafetyProps {
 		out[p] = true
 	}
+	for _, p := range s.HomeProps {
+		out[p] = true
+	}
 	add := func(cs []*Clause) {
 		for _, c := range cs {
 			for _, p := range c.Props {
@@ -94,6 +100,7 @@ func specProps(s *FuncSpec) map[string]bool {
 		}
 	}
 	add(s.Requires)
+	add(s.Assumes)
 	add(s.Ensures)
 	add(s.Invariants)
 	add(s.AssertCalls)
@@ -161,29 +168,14 @@ func Check(p *Program, opts CheckOpts) *Report {
 		names = append(names, n)
 	}
 	trusted := map[string]bool{}
-	for _, name := range names {
-		spec := p.Specs[name]
-		if spec.Trusted || strings.HasPrefix(name, "iface:") || strings.HasPrefix(name, "fntype:") || strings.HasPrefix(name, "funcvar:") {
-			continue
-		}
-		if !spec.Verify {
-			continue
-		}
-		if opts.OnlyFunc != "" && opts.OnlyFunc != name {
-			continue
-		}
-		sp := specProps(spec)
-		if opts.Prop != "" && opts.Prop != "all" && !sp[opts.Prop] {
-			continue
-		}
-		fn := p.Func(name)
+	verifyOne := func(name string, fn *ssa.Function, spec *FuncSpec) {
 		fr := &FuncReport{Func: name}
 		rep.Functions = append(rep.Functions, fr)
 		if fn == nil {
 			fr.Error = "contract target missing: no function " + name + " in the loaded packages"
 			rep.Obligations = append(rep.Obligations, &OblResult{ID: name + "/target", Kind: "target", Func: name, Status: "failed",
 				Text: "function under contract exists", Reason: fr.Error, Props: []string{opts.Prop}})
-			continue
+			return
 		}
 		t0 := time.Now()
 		r := VerifyFunc(p, fn, opts.Prop)
@@ -201,12 +193,15 @@ func Check(p *Program, opts CheckOpts) *Report {
 			fr.Error = r.Err
 			rep.Obligations = append(rep.Obligations, &OblResult{ID: name + "/encode", Kind: "encode", Func: name, Status: "error",
 				Text: "function is inside the supported subset", Reason: r.Err, Props: []string{opts.Prop}})
-			continue
+			return
 		}
 		for _, o := range r.Obls {
 			props := o.Props
 			if len(props) == 0 {
 				props = spec.SafetyProps
+			}
+			if len(props) == 0 && o.Kind != "safety" && o.Kind != "typeinv" {
+				props = spec.HomeProps
 			}
 			if opts.Prop != "" && opts.Prop != "all" && !hasProp(props, opts.Prop) {
 				continue
@@ -246,6 +241,77 @@ func Check(p *Program, opts CheckOpts) *Report {
 			or := &OblResult{ID: cv.ID, Kind: "vacuity", Func: name, Text: cv.Text}
 			rep.Vacuity = append(rep.Vacuity, or)
 			jobs = append(jobs, &job{e: e, o: cv, expect: "sat", res: or})
+		}
+	}
+	for _, name := range names {
+		spec := p.Specs[name]
+		if spec.Trusted || strings.HasPrefix(name, "iface:") || strings.HasPrefix(name, "fntype:") || strings.HasPrefix(name, "funcvar:") {
+			continue
+		}
+		if !spec.Verify {
+			continue
+		}
+		if opts.OnlyFunc != "" && opts.OnlyFunc != name {
+			continue
+		}
+		sp := specProps(spec)
+		if opts.Prop != "" && opts.Prop != "all" && !sp[opts.Prop] {
+			continue
+		}
+		verifyOne(name, p.Func(name), spec)
+	}
+	// implementations of contracted function types: every module function whose signature is identical to the type
+	// is verified against the type's contract (under the type's preconditions only)
+	for _, name := range names {
+		spec := p.Specs[name]
+		if !strings.HasPrefix(name, "fntype:") || !spec.ImplBySig {
+			continue
+		}
+		if sp := specProps(spec); opts.Prop != "" && opts.Prop != "all" && !sp[opts.Prop] {
+			continue
+		}
+		ft := p.resolveType(strings.TrimPrefix(name, "fntype:"), nil)
+		if ft == nil {
+			rep.SpecErrors = append(rep.SpecErrors, "implementations: unknown function type "+name)
+			continue
+		}
+		sig, ok := ft.Underlying().(*types.Signature)
+		if !ok {
+			continue
+		}
+		n := 0
+		for _, fn := range p.moduleFuncs() {
+			if isTestFunc(p, fn) || fn.Signature.Recv() != nil || !types.Identical(fn.Signature, sig) {
+				continue
+			}
+			fname := fnName(fn)
+			if opts.OnlyFunc != "" && opts.OnlyFunc != fname && opts.OnlyFunc != name {
+				continue
+			}
+			n++
+			syn := &FuncSpec{Name: fname, Verify: true, Requires: spec.Requires, Assumes: spec.Assumes, Ensures: spec.Ensures, Macros: spec.Macros, Ghosts: nil,
+				ResultNames: spec.ResultNames, ModifiesAll: true, HasModifies: true, Loops: map[int][]*Clause{}, LoopMods: map[int][]string{},
+				File: spec.File, Line: spec.Line, SafetyProps: nil, HomeProps: spec.HomeProps}
+			if len(spec.ParamNames) > 1 {
+				syn.ParamNames = spec.ParamNames[1:] // drop "self" (the function value at a dynamic call site)
+			}
+			if own := p.Specs[fname]; own != nil {
+				// keep the implementation's own loop frames; its loop invariants speak about its own ghosts and are dropped
+				// (dropping an invariant drops an assumption and its obligations: sound)
+				syn.LoopMods = own.LoopMods
+			}
+			old, had := p.Specs[fname]
+			p.Specs[fname] = syn
+			verifyOne(fname, fn, syn)
+			if had {
+				p.Specs[fname] = old
+			} else {
+				delete(p.Specs, fname)
+			}
+		}
+		if n == 0 && opts.OnlyFunc == "" {
+			rep.Obligations = append(rep.Obligations, &OblResult{ID: name + "/implementations", Kind: "target", Func: name, Status: "failed",
+				Text: "at least one function implements the contracted function type", Reason: "no module function has the signature of " + name, Props: []string{opts.Prop}})
 		}
 	}
 	// solver phase. Script generation touches the shared term context of an Enc, so it is done sequentially here.
